@@ -157,7 +157,7 @@ type mstate struct {
 	files    map[string]*beh   // name -> file behaviour (nil = absent)
 	isDir    map[string]bool
 	preload  map[string]*beh
-	inits    map[string]*beh // name -> behaviour of <name>/init.lua (found by the second template when <name>.lua is absent)
+	inits    map[string]*beh   // name -> behaviour of <name>/init.lua (found by the second template when <name>.lua is absent)
 	modTab   map[string]string // name -> descriptor of the table module(name) created (it stays in the global)
 }
 
